@@ -249,7 +249,7 @@ def handle : List String → String
         let rt : Bool := match fromNBytes p m f.nBytes with
           | .ok g => g == f
           | .error _ => false
-        s!"n={f.n} nbytes={listToHex f.nBytes} pb={listToHexTok ((f.pBytes).take 1)} np={listToHex (f.npBytes.take 10)} rt={bit rt} ser=1 val=1 {observe H f qs (some items)}"
+        s!"n={f.n} nbytes={listToHex f.nBytes} pb={listToHexTok ((f.pBytes).take 1)} np={listToHex (f.npBytes.take 10)} rt={bit rt} ser=1 val=1 inp=1 {observe H f qs (some items)}"
     | _, _, _, _, _ => "bad-op"
   | ["from", p, m, key, n, d, qs] =>
     match p.toNat?, m.toNat?, hexToList? key, n.toNat?, hexToList? d, parseItems? qs with
@@ -280,7 +280,7 @@ def handle : List String → String
         | .ok f =>
           let H := sip (deriveKey bh)
           let all := (Spec.basicElements outs prevs).all (f.matches H)
-          s!"n={f.n} nbytes={listToHex f.nBytes} hash={listToHex (filterHash dsha f)} header={listToHex (makeHeaderForFilter dsha f ph)} all={bit all}"
+          s!"n={f.n} nbytes={listToHex f.nBytes} hash={listToHex (filterHash dsha f)} header={listToHex (makeHeaderForFilter dsha f ph)} all={bit all} inp=1"
     | _, _, _ => "bad-op"
   | _ => "bad-op"
 
